@@ -241,6 +241,24 @@ CLAIMED['C15'] = dict(
     technique='contract-based deductive verification: per-function postconditions, stream positions as byte-sequence '
               'equalities, file-system predicate, z3/cvc5')
 
+CLAIMED['C14'] = dict(
+    text='Deductive proof per function, field values symbolic over the byte range: _establish turns the application\'s '
+         'AssociationRejectedError(result, source, diag) into exactly one A-ASSOCIATE-RJ with those values and re-raises '
+         'it without reaching accept(); handle never enters _loop (the only caller of services) on a refused '
+         'association and always stops the provider; reject / abort (source 2 for the acceptor, 0 for the requester) / '
+         'release hand the right PDU to the provider before stopping it; _handle_errors and _get_dul_message map '
+         'A-ASSOCIATE-RJ, A-ABORT and A-RELEASE-RQ to the library errors with every field unchanged, return (message, '
+         'context) pairs as received and raise NetDICOMError for any other PDU; _request raises the rejection / abort of '
+         'the reply unchanged and makes no context usable; request_association (generator context manager, five '
+         'scenarios): normal exit releases exactly once, exceptional exit aborts exactly once and re-raises, a failed '
+         'request only stops the provider.',
+    ref='4/C14',
+    note=TRUST + 'transport of the PDUs between the two sides is C01 (codec) and C04 (state machine); collaborators '
+         'stubbed per function; that the provider thread transmits a queued PDU before honouring the stop request is '
+         'scheduling (not claimed)',
+    technique='contract-based deductive verification: per-function postconditions over symbolic field values, '
+              'exception-flow obligations, symbolic execution of the real generator-based context manager, z3/cvc5')
+
 NOT_YET = {
 }
 
